@@ -1979,6 +1979,12 @@ class CheckImplied(todict.PrintNode):
                     "{}:Too many arguments to 'size': ".format(
                         self.context.linenumber, self.expr)
                 )
+            if not isinstance(node.args[0], declast.Identifier):
+                raise RuntimeError(
+                    "{}:Argument to '{}' in implied attribute must be "
+                    "the name of an argument: {}".format(
+                        self.context.linenumber, node.name, self.expr)
+                )
             argname = node.args[0].name
             arg = declast.find_arg_by_name(self.decls, argname)
             if arg is None:
@@ -1992,6 +1998,12 @@ class CheckImplied(todict.PrintNode):
             if len(node.args) != 1:
                 raise RuntimeError(
                     "{}:Too many arguments to '{}': {}".format(
+                        self.context.linenumber, node.name, self.expr)
+                )
+            if not isinstance(node.args[0], declast.Identifier):
+                raise RuntimeError(
+                    "{}:Argument to '{}' in implied attribute must be "
+                    "the name of an argument: {}".format(
                         self.context.linenumber, node.name, self.expr)
                 )
             argname = node.args[0].name
